@@ -28,18 +28,18 @@ import (
 )
 
 const (
-	IssuerHost  = "idp.example"
-	Issuer      = "https://idp.example"
-	Issuer2Host = "idp2.example"
-	Issuer2     = "https://idp2.example"
-	ClientID    = "proxy-client"
+	IssuerHost   = "idp.example"
+	Issuer       = "https://idp.example"
+	Issuer2Host  = "idp2.example"
+	Issuer2      = "https://idp2.example"
+	ClientID     = "proxy-client"
 	ClientSecret = "proxy-secret"
 )
 
 // process-wide keys (generated once with the real generator; RSA key generation is
 // deliberately non-deterministic in the standard library)
 var (
-	keyOnce            sync.Once
+	keyOnce                       sync.Once
 	KeyMain, KeyOther, KeyIssuer2 *rsa.PrivateKey
 )
 
@@ -68,7 +68,7 @@ type User struct {
 // AuthRequest is what the provider recorded for one authorization request.
 type AuthRequest struct {
 	ClientID, RedirectURI, Scope, State, Nonce string
-	Challenge, ChallengeMethod                string
+	Challenge, ChallengeMethod                 string
 	Raw                                        url.Values
 	Code                                       string
 	User                                       *User
@@ -89,14 +89,14 @@ type Call struct {
 
 // TokenSpec controls how an ID token is minted.
 type TokenSpec struct {
-	Signer   string // "main" (default), "other", "none", "hs256-pem", "hs256-jwk", "unknown-kid", "issuer2"
-	Issuer   *string
-	Audience any    // nil = client id; "" (string) with DropAud = absent
-	DropAud  bool
-	Expiry   string // "" = valid (+24h beyond horizon), "expired", "absent"
-	Nonce    *string
+	Signer    string // "main" (default), "other", "none", "hs256-pem", "hs256-jwk", "unknown-kid", "issuer2"
+	Issuer    *string
+	Audience  any // nil = client id; "" (string) with DropAud = absent
+	DropAud   bool
+	Expiry    string // "" = valid (+24h beyond horizon), "expired", "absent"
+	Nonce     *string
 	DropNonce bool
-	Claims   map[string]any // extra/override; value nil = drop
+	Claims    map[string]any // extra/override; value nil = drop
 }
 
 type family struct {
@@ -117,42 +117,42 @@ type Fault struct {
 
 // IdP is the in-memory identity provider (DESIGN.md Appendix E).
 type IdP struct {
-	mu        sync.Mutex
-	Users     map[string]*User
-	Auths     map[string]*AuthRequest // by code
-	AuthLog   []*AuthRequest
-	Calls     []*Call
-	families  map[string]*family // by refresh token (current or old)
-	famList   []*family
-	access    map[string]*User // live access tokens
-	seq       int
-	codeSeq   int
+	mu       sync.Mutex
+	Users    map[string]*User
+	Auths    map[string]*AuthRequest // by code
+	AuthLog  []*AuthRequest
+	Calls    []*Call
+	families map[string]*family // by refresh token (current or old)
+	famList  []*family
+	access   map[string]*User // live access tokens
+	seq      int
+	codeSeq  int
 
 	// knobs
-	NonceMode      string // "echo" (default), "other", "empty", "absent", "raw"
-	RawNonce       func(a *AuthRequest) string // for "raw"
-	OtherNonce     string
-	IDTokenSpec    func(a *AuthRequest, u *User, refresh bool) *TokenSpec
-	NoRefreshToken bool
+	NonceMode          string                      // "echo" (default), "other", "empty", "absent", "raw"
+	RawNonce           func(a *AuthRequest) string // for "raw"
+	OtherNonce         string
+	IDTokenSpec        func(a *AuthRequest, u *User, refresh bool) *TokenSpec
+	NoRefreshToken     bool
 	NoIDTokenOnRefresh bool
 	StaticRefreshToken bool // refresh grants do not rotate the refresh token (one saved browser state can be refreshed repeatedly)
-	RefreshFails   bool
-	TokenPadding   int // extra bytes in access tokens minted on refresh (growing sessions)
+	RefreshFails       bool
+	TokenPadding       int // extra bytes in access tokens minted on refresh (growing sessions)
 	// TokenPaddingRandom: the padding is taken from a deterministic hash stream (keyed by the
 	// token generation) instead of a repeated 'x', so that compression cannot shrink it away.
 	TokenPaddingRandom bool
-	AccessTTL      time.Duration
-	ValidateOK     bool
-	UserinfoClaims map[string]any // overrides for the userinfo response
-	PKCEMethods    []string
+	AccessTTL          time.Duration
+	ValidateOK         bool
+	UserinfoClaims     map[string]any // overrides for the userinfo response
+	PKCEMethods        []string
 	// Intercept is consulted for every call (ENV choice points); returning a Fault replaces
 	// the healthy answer.
 	Intercept func(c *Call, req *http.Request) *Fault
 
 	// violations the provider itself detects (PKCE etc.)
-	Problems  []string
-	Verifiers []string
-	Grants    int // successful refresh grants
+	Problems   []string
+	Verifiers  []string
+	Grants     int // successful refresh grants
 	CodeGrants int
 }
 
@@ -161,13 +161,13 @@ type IdP struct {
 func NewIdP() *IdP {
 	genKeys()
 	p := &IdP{
-		Users:      map[string]*User{},
-		Auths:      map[string]*AuthRequest{},
-		families:   map[string]*family{},
-		access:     map[string]*User{},
-		NonceMode:  "echo",
-		AccessTTL:  time.Hour,
-		ValidateOK: true,
+		Users:       map[string]*User{},
+		Auths:       map[string]*AuthRequest{},
+		families:    map[string]*family{},
+		access:      map[string]*User{},
+		NonceMode:   "echo",
+		AccessTTL:   time.Hour,
+		ValidateOK:  true,
 		PKCEMethods: []string{"S256", "plain"},
 	}
 	p.Users["alice"] = &User{Sub: "alice-sub", Email: "alice@example.com", EmailVerified: true, Groups: []string{"staff", "admins"}, PreferredUsername: "alice"}
